@@ -41,7 +41,7 @@ var c12Grid = func() []meta.Config {
 func init() {
 	register(&Prop{ID: "C12", Witness: true, N: diffN, Quick: 4000, Variants: cpuVariants,
 		Assume: []string{"the directly driven nfa.PikeVM (NewDefaultCompiler + NewPikeVM, enumeration by stdlib's resume rule) is the plain NFA simulation", "CPU masks via GODEBUG are honoured by golang.org/x/sys/cpu (flags recorded in evidence)"},
-		Rule:   "cases G(D,i); each pattern is compiled under the default configuration and under 5 index-chosen configurations of the grid EnableDFA × EnablePrefilter × MaxDFAStates{1,2,16,10000} × DeterminizationLimit{10,1000} × MinLiteralLen{1,2,3,8,64} × MaxLiterals{1,2,8,64,256,1000} × MaxRecursionDepth{100,1000} × ASCII optimisation (only configurations passing Validate()); Match, FindIndex, FindSubmatchIndex and FindAllIndex(-1) must agree with the default configuration and with the driven PikeVM; the whole run is repeated under three CPU masks and per-case result digests are compared across the three processes; one evaluation = one compared result; distinct_nontrivial = distinct (pattern, configuration, haystack) triples with a match",
+		Rule:   "cases G(D,i) (plus two boundary-byte variants of the haystacks: 0x7f, 0x00, 0x0b, 0x09 substituted); each pattern is compiled under the default configuration and under 5 index-chosen configurations of the grid EnableDFA × EnablePrefilter × MaxDFAStates{1,2,16,10000} × DeterminizationLimit{10,1000} × MinLiteralLen{1,2,3,8,64} × MaxLiterals{1,2,8,64,256,1000} × MaxRecursionDepth{100,1000} × ASCII optimisation (only configurations passing Validate()); Match, FindIndex, FindSubmatchIndex and FindAllIndex(-1) must agree with the default configuration and with the driven PikeVM; the whole run is repeated under three CPU masks and per-case result digests are compared across the three processes; one evaluation = one compared result; distinct_nontrivial = distinct (pattern, configuration, haystack) triples with a match",
 		Triage: triageC12,
 		Run:    runC12})
 }
@@ -129,8 +129,21 @@ func runC12(w *W, i uint64) {
 		cfgs = append(cfgs, cfgRe{name, r})
 		w.Count("event:config-compiled", 1)
 	}
+	// boundary-byte variants of the first two haystacks: every third byte replaced by 0x7f / 0x00 / 0x0b / 0x09, the
+	// bytes at which ASCII-only automata, line handling and byte-class boundaries differ
+	hs12 := append([][]byte(nil), c.Haystacks...)
+	for v, src := range c.Haystacks {
+		if v >= 2 || len(src) == 0 || c.Region != gen.ASCII {
+			break
+		}
+		b := append([]byte(nil), src...)
+		for q := 1 + v; q < len(b); q += 3 {
+			b[q] = []byte{0x7f, 0x00, 0x0b, 0x09}[(q+v)%4]
+		}
+		hs12 = append(hs12, b)
+	}
 	digestAll := ""
-	for k, h := range c.Haystacks {
+	for k, h := range hs12 {
 		view := func(re *coregex.Regex) []obs.Rec {
 			return []obs.Rec{
 				{API: "Match", Val: obs.Call(func() string { return fmt.Sprint(re.Match(h)) })},
